@@ -112,3 +112,27 @@ Theorem C15_number_text_ok_iff : forall l,
 Proof. exact SerToValueAp.number_text_ok_iff. Qed.
 Print Assumptions C15_number_text_ok_iff.
 
+
+(* ---- both map-key serializers, method by method, from the sources as TRANSLATED ON THIS RUN (tools/translate_keys.py -> Gen/KeyTables.v):
+        the two classify every Serializer method identically (the theorem form of finding F5), and the models are the tables' meaning ---- *)
+From SJ Require Import Base.Bytes Base.Utf8 Model.Read Model.Num Model.Sval Model.Ser Model.ValueSer Model.KeyAst Gen.KeyTables.
+From SJ Require Import Proofs.SerKeys.
+Theorem C15_key_serializers_agree_by_method : forall m, klookup KEY_TEXT m = klookup KEY_VALUE m /\ klookup KEY_TEXT m <> None.
+Proof. exact SerKeys.key_tables_agree. Qed.
+Print Assumptions C15_key_serializers_agree_by_method.
+
+Theorem C15_value_key_serializer_is_source : forall fmt32 fmt64 k,
+  key_string fmt32 fmt64 k = value_meaning fmt32 fmt64 (key_string fmt32 fmt64) (klookup KEY_VALUE (method_of k)) k.
+Proof. exact SerKeys.key_string_is_table. Qed.
+Print Assumptions C15_value_key_serializer_is_source.
+
+Theorem C15_text_key_serializer_is_source : forall fmt32 fmt64 k,
+  key_ser fmt32 fmt64 k = text_meaning fmt32 fmt64 (key_ser fmt32 fmt64) (klookup KEY_TEXT (method_of k)) k.
+Proof. exact SerKeys.key_ser_is_table. Qed.
+Print Assumptions C15_text_key_serializer_is_source.
+
+Theorem C15_same_methods_rejected : forall m,
+  klookup KEY_TEXT m = Some KReject <-> klookup KEY_VALUE m = Some KReject.
+Proof. exact SerKeys.key_rejection_same_methods. Qed.
+Print Assumptions C15_same_methods_rejected.
+
